@@ -617,7 +617,7 @@ def make_renaming(rng, plain_text, logic, profile):
             if arity.get(f, 0) > 0:
                 cls = hard * 4 + own
             else:
-                cls = own * 3 + hard
+                cls = ["formal-parameter-like"] * 14 + own * 3 + hard
             picks.append(N2.pick_names(rng, 1, cls, logic, [p[0] for p in picks])[0])
     if profile == "bad-name" and not any(c in N2.BAD_CLASSES for _, c in picks) and picks:
         picks[rng.randrange(len(picks))] = N2.pick_names(rng, 1, N2.BAD_CLASSES, logic, [p[0] for p in picks])[0]
@@ -672,6 +672,8 @@ def gen_case(rng, M, mode, profile):
         opts.append(":produce-interpolants true")
         named = True
     nassert = rng.choice([1, 2, 3, 4]) if mode not in ("core", "fullcore", "itp") else rng.choice([2, 3, 4])
+    if profile in ("pool", "clash") and mode in ("model", "model+value"):
+        nassert = rng.choice([1, 1, 2])       # these scripts are about the printed model: keep them satisfiable
     text, meta = scriptgen.gen_script(rng, logic=logic, options=opts, produce_models=mode in ("model", "value", "model+value", "dump", "assignment"),
                                       nassert=nassert, named=named, queries=queries, depth=rng.randint(1, 2), divmod=False)
     lines = text.strip().split("\n")
@@ -987,6 +989,14 @@ def part_scripts(ctx, M, H):
         script_case(ctx, M, c)
     modes = ["model", "model+value", "value", "assignment", "core", "fullcore", "itp", "dump"]
     profiles = ["good"] * 4 + ["pool"] * 4 + ["bad-name", "sort-name", "label-name", "clash", "clash"]
+    # printed models over the pooled names (function definitions with difficult names beside constants that are called
+    # like formal parameters): a share of their own, the renaming path of get-model is reached only by such scripts
+    for it in range(20 if ctx.quick else 200):
+        try:
+            c = gen_case(rng, M, rng.choice(["model", "model+value"]), "pool")
+            script_case(ctx, M, c)
+        except smtlib.ParseError as e:
+            ctx.note("glue could not interpret a generated script (pool): %s" % e)
     n = 72 if ctx.quick else 700
     for it in range(n):
         mode = modes[it % len(modes)] if it < 6 * len(modes) else rng.choice(modes)
